@@ -235,6 +235,7 @@ func (b *backend) collectStorageWriteEvents() {
 				}
 				verifhook.Yield("seq.commit")
 				b.SetCurrentRevision(watchEvent.Revision)
+				verifhook.Yield("seq.committed")
 				continue
 			}
 
